@@ -71,3 +71,11 @@ Example C05gen_example :
   gen_area_preprocessing Z 0 (Some 4) = Some 0 /\
   gen_process_removed_objects Z Z.add Z.opp [2; 4] 6 = 0.
 Proof. repeat split. Qed.
+
+(* evaluate_area_for_error_estimates (and the methods of self it calls) = AEstimate: no cell is touched *)
+Theorem C05gen_estimate_is_AEstimate : forall (V : Type) (vzero : V) (vadd : V -> V -> V) (vopp : V -> V) (s : astate V) (id : Z),
+  let s' := apply_event V vzero vadd vopp s (AEstimate id) in
+  gen_evaluate_area_for_error_estimates V (area_get V id (st_areas s)) (Some (st_cont s)) (st_total s)
+  = (area_get V id (st_areas s'), Some (st_cont s'), st_total s').
+Proof. exact gen_estimate_is_AEstimate. Qed.
+Print Assumptions C05gen_estimate_is_AEstimate.
